@@ -39,6 +39,23 @@ class MethodTable(dict):
         raise KeyError(key)
 
 
+def clone(node):
+    """Structural copy of an AST (or list of ASTs): fields and positions only.  `copy.deepcopy` would follow the `_parent` links that the
+    model adds and copy the enclosing module with every expression."""
+    if isinstance(node, list):
+        return [clone(x) for x in node]
+    if not isinstance(node, ast.AST):
+        return node
+    new = type(node)()
+    for f in node._fields:
+        if hasattr(node, f):
+            setattr(new, f, clone(getattr(node, f)))
+    for a in node._attributes:
+        if hasattr(node, a):
+            setattr(new, a, getattr(node, a))
+    return new
+
+
 class Module:
     def __init__(self, name, relpath, source, is_pkg):
         self.name = name
@@ -307,7 +324,7 @@ def map_to_comprehension(tree):
             class Sub(ast.NodeTransformer):
                 def visit_Name(self, n):
                     return ast.copy_location(ast.Name(id=var, ctx=n.ctx), n) if n.id == f.args.args[0].arg else n
-            return Sub().visit(copy.deepcopy(f.body))
+            return Sub().visit(clone(f.body))
         if isinstance(f, (ast.Name, ast.Attribute)):
             return ast.Call(func=f, args=[ast.Starred(value=x, ctx=ast.Load())] if star else [x], keywords=[])
         return None
@@ -349,7 +366,7 @@ def map_to_comprehension(tree):
                     class SubT(ast.NodeTransformer):
                         def visit_Name(self, x):
                             if x.id == tname and isinstance(x.ctx, ast.Load):
-                                e = copy.deepcopy(elt)
+                                e = clone(elt)
                                 for y in ast.walk(e):
                                     ast.copy_location(y, x)
                                 return e
@@ -390,7 +407,7 @@ def inline_thunks(tree):
                 def visit_Call(self, n):
                     self.generic_visit(n)
                     if isinstance(n.func, ast.Name) and n.func.id == d.name and not n.args and not n.keywords:
-                        e = copy.deepcopy(expr)
+                        e = clone(expr)
                         for x in ast.walk(e):
                             ast.copy_location(x, n)
                         return e
@@ -559,7 +576,7 @@ def expand_statement_ifexp(tree):
                 elif isinstance(st, ast.Assign) and isinstance(st.value, ast.IfExp) and len(st.targets) == 1 and \
                         (isinstance(st.targets[0], ast.Name) or (isinstance(st.targets[0], ast.Attribute) and isinstance(st.targets[0].value, ast.Name))):
                     ie = st.value
-                    mk = lambda v: ast.copy_location(ast.Assign(targets=[copy.deepcopy(st.targets[0])], value=v), st)
+                    mk = lambda v: ast.copy_location(ast.Assign(targets=[clone(st.targets[0])], value=v), st)
                     out.append(ast.copy_location(ast.If(test=ie.test, body=[mk(ie.body)], orelse=[mk(ie.orelse)]), st))
                 else:
                     out.append(st)
@@ -741,9 +758,9 @@ def split_conditional_callees(tree):
                 test, a, b = pending[call.func.id]
 
                 def variant(target):
-                    s2 = copy.deepcopy(st)
+                    s2 = clone(st)
                     c2 = s2.value
-                    c2.func = copy.deepcopy(target)
+                    c2.func = clone(target)
                     return s2
                 new = ast.copy_location(ast.If(test=ast.Name(id=test, ctx=ast.Load()), body=[variant(a)], orelse=[variant(b)]), st)
                 out.append(new)
@@ -1031,7 +1048,7 @@ def unroll_literal_loops(tree):
                 vals = literal_of(self.fn, node.generators[0].iter, self.cls)
                 if vals and all(isinstance(v, (str, int, float)) or (isinstance(v, tuple) and len(v) == 2 and v[0] == 'name') for v in vals):
                     name = node.generators[0].target.id
-                    elts = [Subst(name, v).visit(copy.deepcopy(node.elt)) for v in vals]
+                    elts = [Subst(name, v).visit(clone(node.elt)) for v in vals]
                     return ast.copy_location(ast.List(elts=elts, ctx=ast.Load()), node)
             return node
 
@@ -1043,8 +1060,8 @@ def unroll_literal_loops(tree):
                 vals = literal_of(self.fn, node.generators[0].iter, self.cls)
                 if vals and all(isinstance(v, (str, int)) for v in vals) and len(set(vals)) == len(vals):
                     name = node.generators[0].target.id
-                    keys = [Subst(name, v).visit(copy.deepcopy(node.key)) for v in vals]
-                    values = [Subst(name, v).visit(copy.deepcopy(node.value)) for v in vals]
+                    keys = [Subst(name, v).visit(clone(node.key)) for v in vals]
+                    values = [Subst(name, v).visit(clone(node.value)) for v in vals]
                     return ast.copy_location(ast.Dict(keys=keys, values=values), node)
             return node
 
@@ -1057,7 +1074,7 @@ def unroll_literal_loops(tree):
                 vals = literal_of(self.fn, node.generators[0].iter, self.cls)
                 if vals and all(isinstance(v, (str, int, float)) or (isinstance(v, tuple) and len(v) == 2 and v[0] == 'name') for v in vals):
                     name = node.generators[0].target.id
-                    elts = [Subst(name, v).visit(copy.deepcopy(node.elt)) for v in vals]
+                    elts = [Subst(name, v).visit(clone(node.elt)) for v in vals]
                     return ast.copy_location(ast.List(elts=elts, ctx=ast.Load()), node)
             return node
 
@@ -1095,6 +1112,10 @@ def unroll_literal_loops(tree):
                 for x in ast.walk(new):
                     ast.copy_location(x, node)
                 return new
+            # d.update(a=x, b=y)  ->  d.update({'a': x, 'b': y})
+            if isinstance(node.func, ast.Attribute) and node.func.attr == 'update' and not node.args and node.keywords and all(k.arg for k in node.keywords):
+                node.args = [ast.copy_location(ast.Dict(keys=[ast.Constant(value=k.arg) for k in node.keywords], values=[k.value for k in node.keywords]), node)]
+                node.keywords = []
             # d.update([(k1, v1), (k2, v2)]) / dict([(k1, v1), ...])  ->  with a dict literal
             if ((isinstance(node.func, ast.Attribute) and node.func.attr == 'update') or (isinstance(node.func, ast.Name) and node.func.id == 'dict')) \
                     and len(node.args) == 1 and not node.keywords and isinstance(node.args[0], ast.List) and node.args[0].elts \
@@ -1136,7 +1157,7 @@ def unroll_literal_loops(tree):
                     out = []
                     for v in vals:
                         for b in node.body:
-                            out.append(SubstMany(dict(zip(names, v))).visit(copy.deepcopy(b)))
+                            out.append(SubstMany(dict(zip(names, v))).visit(clone(b)))
                     return out
                 return node
             if node.orelse or not isinstance(node.target, ast.Name):
@@ -1156,7 +1177,7 @@ def unroll_literal_loops(tree):
                 out = []
                 for v in vals:
                     for b in node.body:
-                        out.append(Subst(node.target.id, v).visit(copy.deepcopy(b)))
+                        out.append(Subst(node.target.id, v).visit(clone(b)))
                 return out
             names = {v[1].split('.')[0] for v in vals if isinstance(v, tuple)}
             if names and any(isinstance(x, ast.Name) and x.id in names and isinstance(x.ctx, ast.Store) for b in node.body for x in ast.walk(b)):
@@ -1164,7 +1185,7 @@ def unroll_literal_loops(tree):
             out = []
             for v in vals:
                 for b in node.body:
-                    out.append(Subst(node.target.id, v).visit(copy.deepcopy(b)))
+                    out.append(Subst(node.target.id, v).visit(clone(b)))
             return out
 
     tree = Unroll().visit(tree)
@@ -1439,9 +1460,9 @@ class Program:
                             class P(ast.NodeTransformer):
                                 def visit_Name(self3, x):
                                     if x.id in mapping and isinstance(x.ctx, ast.Load):
-                                        return copy.deepcopy(mapping[x.id])
+                                        return clone(mapping[x.id])
                                     return x
-                            e = P().visit(copy.deepcopy(expr))
+                            e = P().visit(clone(expr))
                             for x in ast.walk(e):
                                 ast.copy_location(x, n)
                             Sub.hit = True
@@ -1498,7 +1519,7 @@ class Program:
                                 self2.generic_visit(n)
                                 if isinstance(n.func, ast.Attribute) and n.func.attr == name and isinstance(n.func.value, ast.Name) and n.func.value.id == cs \
                                         and not n.args and not n.keywords:
-                                    e = copy.deepcopy(expr)
+                                    e = clone(expr)
                                     for x in ast.walk(e):
                                         if isinstance(x, ast.Name) and x.id == selfname:
                                             x.id = cs
